@@ -258,3 +258,12 @@ func (e *UnboundedAccountIsNotLast) Message() string {
 func (*UnboundedAccountIsNotLast) Severity() Severity {
 	return WarningSeverity
 }
+
+type DivByZero struct{}
+
+func (e *DivByZero) Message() string {
+	return "Cannot divide by zero"
+}
+func (*DivByZero) Severity() Severity {
+	return ErrorSeverity
+}
